@@ -9,7 +9,7 @@ mkdir -p "$W/out/$V"; cp "$SRC"/* "$W/out/$V/" 2>/dev/null
 cd "$W"
 echo "== demo on clean checkout (must pass)"
 PYTHONPATH="$W" timeout 300 /venv/bin/python out/$V/demo.py > /tmp/sv-$ID-$V.clean.log 2>&1; echo "clean demo exit=$?"
-git apply "out/$V/patch.diff" || { echo "PATCH DOES NOT APPLY"; git -C /repo worktree remove --force "$W"; exit 3; }
+git apply "out/$V/patch.diff" 2>/dev/null || git apply -3 "out/$V/patch.diff" || { echo "PATCH DOES NOT APPLY"; git -C /repo worktree remove --force "$W"; exit 3; }
 git diff --stat | tail -3
 echo "== demo with patch (must fail)"
 PYTHONPATH="$W" timeout 300 /venv/bin/python out/$V/demo.py > /tmp/sv-$ID-$V.patched.log 2>&1; echo "patched demo exit=$?"
